@@ -36,7 +36,8 @@ try:
     res['patch_applies'] = (rc == 0)
     if rc != 0:
         res['patch_error'] = out[-500:]
-        raise SystemExit
+        print('PATCH DOES NOT APPLY to /repo HEAD', res['repo_head'], '(re-base the seed or drop it):', out[-300:])
+        raise SystemExit(3)
     rcs, outs = sh('/venv/bin/python -m pytest -q -p no:cacheprovider -x', cwd=wt, extra={'PYTHONPATH': wt})
     res['suite_on_patched_tree'] = {'rc': rcs, 'tail': outs.strip().splitlines()[-1] if outs.strip() else ''}
     rc1, out1 = sh(f'/venv/bin/python {os.path.abspath(src)}/demo.py', cwd=wt, extra={'PYTHONPATH': wt})
